@@ -236,18 +236,19 @@ func (s *Session) onRequest(req *Request) (err error) {
 func (s *Session) onDescribe(resp *Response, req *Request) {
 
 	// TODO: 检查 accept 中的类型是否包含 sdp
-	s.url = req.URL
+	// 请求被拒绝时不能改变会话已有的状态，成功后才更新 url、path
+	path := s.path
 	if s.wsconn == nil { // websocket访问的路径有ws://路径表示
-		s.path = utils.CanonicalPath(req.URL.Path)
+		path = utils.CanonicalPath(req.URL.Path)
 	}
 
-	stream := media.GetOrCreate(s.path)
+	stream := media.GetOrCreate(path)
 	if stream == nil {
 		resp.StatusCode = StatusNotFound
 		return
 	}
 
-	if !s.checkPermission(auth.PullRight) {
+	if !s.checkPermissionOn(path, auth.PullRight) {
 		resp.StatusCode = StatusForbidden
 		return
 	}
@@ -264,6 +265,8 @@ func (s *Session) onDescribe(resp *Response, req *Request) {
 		return
 	}
 
+	s.url = req.URL
+	s.path = path
 	resp.Header.Set(FieldContentType, "application/sdp")
 	resp.Body = s.rawSdp
 	s.mode = PlaySession // 标记为播放会话
@@ -277,10 +280,10 @@ func (s *Session) onAnnounce(resp *Response, req *Request) {
 		return
 	}
 
-	s.url = req.URL
-	s.path = utils.CanonicalPath(req.URL.Path)
+	// 请求被拒绝时不能改变会话已有的状态，成功后才更新 url、path
+	path := utils.CanonicalPath(req.URL.Path)
 
-	if !s.checkPermission(auth.PushRight) {
+	if !s.checkPermissionOn(path, auth.PushRight) {
 		resp.StatusCode = StatusForbidden
 		return
 	}
@@ -292,6 +295,8 @@ func (s *Session) onAnnounce(resp *Response, req *Request) {
 		return
 	}
 
+	s.url = req.URL
+	s.path = path
 	s.mode = RecordSession // 标记为录像会话
 }
 
@@ -336,7 +341,9 @@ func (s *Session) onSetup(resp *Response, req *Request) {
 		return
 	}
 
-	err = s.transport.ParseTransport(chindex, ts)
+	// 在副本上解析，SETUP 被接受后才写回会话；被拒绝的 SETUP 不能改变已建立的传输设置
+	transport := s.transport
+	err = transport.ParseTransport(chindex, ts)
 	if err != nil {
 		resp.StatusCode = StatusInvalidParameter
 		resp.Status = err.Error()
@@ -345,10 +352,10 @@ func (s *Session) onSetup(resp *Response, req *Request) {
 
 	// 检查和以前的命令是否一致
 	if s.mode == UnknownSession {
-		s.mode = s.transport.Mode
+		s.mode = transport.Mode
 	}
 
-	if s.mode != s.transport.Mode {
+	if s.mode != transport.Mode {
 		resp.StatusCode = StatusInvalidParameter
 		if s.mode == PlaySession {
 			resp.Status = "Current state can't setup as record"
@@ -366,10 +373,11 @@ func (s *Session) onSetup(resp *Response, req *Request) {
 			return
 		}
 
-		if s.transport.Type != RTPTCPUnicast {
+		if transport.Type != RTPTCPUnicast {
 			resp.StatusCode = StatusUnsupportedTransport
 			resp.Status = "when mode = record，only support tcp unicast"
 		} else {
+			s.transport = transport
 			if s.status < statusReady { // 初始状态切换到Ready
 				s.status = statusReady
 			}
@@ -383,7 +391,7 @@ func (s *Session) onSetup(resp *Response, req *Request) {
 		return
 	}
 
-	if s.transport.Type == RTPMulticast { // 需要修改回复的transport
+	if transport.Type == RTPMulticast { // 需要修改回复的transport
 		st := media.GetOrCreate(s.path)
 		if st == nil { // 没有找到源
 			resp.StatusCode = StatusNotFound
@@ -402,6 +410,7 @@ func (s *Session) onSetup(resp *Response, req *Request) {
 		resp.Header.Set(FieldTransport, ts)
 	}
 
+	s.transport = transport
 	if s.status < statusReady { // 初始状态切换到Ready
 		s.status = statusReady
 	}
@@ -467,6 +476,10 @@ func (s *Session) onPlay(resp *Response, req *Request) (err error) {
 }
 
 func (s *Session) checkPermission(right auth.AccessRight) bool {
+	return s.checkPermissionOn(s.path, right)
+}
+
+func (s *Session) checkPermissionOn(path string, right auth.AccessRight) bool {
 	if s.authMode == auth.NoneAuth {
 		return true
 	}
@@ -475,7 +488,7 @@ func (s *Session) checkPermission(right auth.AccessRight) bool {
 		return false
 	}
 
-	return s.user.ValidatePermission(s.path, right)
+	return s.user.ValidatePermission(path, right)
 }
 
 func (s *Session) checkAuth(r *Request) (user *auth.User, err error) {
@@ -622,14 +635,16 @@ func (s *Session) newResponse(code int, req *Request) *Response {
 }
 
 func (s *Session) parseSdp(rawSdp string) (err error) {
-	// 从流中取 sdp
-	s.rawSdp = rawSdp
-	// 解析
-	s.sdp, err = sdp.ParseString(s.rawSdp)
+	// 解析；失败时保持会话原有的描述不变
+	parsed, err := sdp.ParseString(rawSdp)
 	if err != nil {
 		return
 	}
 
+	s.rawSdp = rawSdp
+	s.sdp = parsed
+	// 新的描述替换旧的描述，旧描述中的控制路径不能保留
+	s.vControl, s.vCodec, s.aControl, s.aCodec = "", "", "", ""
 	for _, media := range s.sdp.Media {
 		switch media.Type {
 		case "video":
